@@ -2,6 +2,7 @@
 // One process = one case: (variant, environment, profile, seed, ops).
 #include "seq.hpp"
 #include <thread>
+#include <atomic>
 #include <new>
 #include <algorithm>
 #include <system_error>
@@ -924,7 +925,7 @@ static void do_remote_free_batch(State& S) {
 }
 
 struct ThreadBlock { void* p; size_t n; bool zero; };
-static void do_thread_alloc_exit(State& S) {
+static void do_thread_alloc_exit(State& S, std::vector<vf::Blk*>* group = nullptr) {
   size_t k = 1 + (size_t)below(S, 48);
   std::vector<ThreadBlock> out;
   uint64_t tseed = rnd(S);
@@ -946,13 +947,68 @@ static void do_thread_alloc_exit(State& S) {
   t.join();
   } catch (const std::system_error& e) { vf_trip("harness", "", "cannot create a thread: %s", e.what()); }
   for (auto& tb : out) {
-    accept_block(S, tb.p, tb.n, -1, 0, 0, tb.zero, tb.zero ? EP_zalloc : EP_malloc);
+    vf::Blk* nb = accept_block(S, tb.p, tb.n, -1, 0, 0, tb.zero, tb.zero ? EP_zalloc : EP_malloc);
+    if (group != nullptr && nb != nullptr) group->push_back(nb);
     S.foreign_live++; S.n_foreign++;
   }
   S.n_thread_exits++; S.ep_count[EP_thread_alloc_exit]++;
   hmix(S, 0xD100 + out.size());
   TRACE(S, "thread_alloc_exit %zu blocks", out.size());
   check_errors(S, "thread exit");
+}
+
+// several threads terminate one after the other, each leaving live blocks behind (several abandoned segments at the same time); then the blocks of one thread
+// after the other are freed by this thread -- starting with a thread in the middle of the abandonment order -- with a full walk comparison after every group
+// (reclaim-on-free takes that segment out of the middle of the abandoned set; the others must still be reported completely)
+static void do_abandoned_pattern(State& S) {
+  const size_t K = 3 + (size_t)below(S, 3);
+  std::vector<std::vector<vf::Blk*>> groups(K);
+  {
+    // the K threads are alive at the same time (a barrier keeps each from adopting what the others abandon), so each owns segments of its own when it terminates
+    std::vector<std::vector<ThreadBlock>> outs(K);
+    std::vector<std::thread> ts;
+    std::atomic<size_t> ready(0);
+    uint64_t tseed = rnd(S);
+    vf_cur_what = "abandoned pattern threads";
+    try {
+      for (size_t k = 0; k < K; k++) ts.emplace_back([&, k]() {
+        vf_rng_t r; vf_rng_seed(&r, tseed + k);
+        size_t cnt = 2 + (size_t)vf_rng_below(&r, 30);
+        for (size_t i = 0; i < cnt; i++) {
+          size_t n = (vf_rng_chance(&r, 3, 4) ? 1 + (size_t)vf_rng_below(&r, 2048) : 1 + (size_t)vf_rng_below(&r, 200 * KiB));
+          void* p = mi_malloc(n); if (p == nullptr) continue;
+          ThreadBlock tb; tb.p = p; tb.n = n; tb.zero = false; outs[k].push_back(tb);
+        }
+        ready.fetch_add(1);
+        while (ready.load() < K) std::this_thread::yield();
+      });
+      for (auto& t : ts) t.join();
+    } catch (const std::system_error& e) { vf_trip("harness", "", "cannot create a thread: %s", e.what()); }
+    for (size_t k = 0; k < K; k++) for (auto& tb : outs[k]) {
+      vf::Blk* nb = accept_block(S, tb.p, tb.n, -1, 0, 0, false, EP_malloc);
+      if (nb != nullptr) groups[k].push_back(nb);
+      S.foreign_live++; S.n_foreign++;
+    }
+    S.n_thread_exits += K; S.ep_count[EP_thread_alloc_exit] += K;
+    hmix(S, 0xD200 + K);
+    check_errors(S, "thread exit");
+  }
+  walk_compare(S, "C12");
+  std::vector<size_t> order;
+  order.push_back(K / 2 + (K > 3 ? (size_t)below(S, 2) : 0));
+  for (size_t k = 0; k < K; k++) if (k != order[0]) order.push_back(k);
+  for (size_t i = 2; i < order.size(); i++) { size_t j = 1 + (size_t)below(S, i); std::swap(order[i], order[j]); }
+  const size_t ngroups = 1 + (size_t)below(S, K);      // some groups stay live and are freed by the ordinary history later
+  for (size_t gi = 0; gi < ngroups; gi++) {
+    std::vector<vf::Blk*>& g = groups[order[gi]];
+    const bool all = chance(S, 3, 4);
+    for (size_t i = 0; i < g.size(); i++) {
+      if (!all && i > 0) break;                        // only one block: the segment is reclaimed (or not) but stays in use
+      if (g[i]->heap < 0) S.foreign_live--;
+      do_free(S, g[i]);
+    }
+    walk_compare(S, "C12");
+  }
 }
 
 // ------------------------------------------------------------------------------------------------
@@ -1071,6 +1127,7 @@ void history_step(State& S) {
   else { if (chance(S, 1, 2)) do_remote_free_batch(S); else do_thread_alloc_exit(S); }
 
   if (walkprof && (S.op_index % 160) == 80) do_walk_pattern(S);
+  if (walkprof && S.cfg.threads && S.cfg.abandon_ok && (S.op_index % 400) == 200) do_abandoned_pattern(S);
   if (S.cfg.trace >= 2 && S.foreign_live == 0) check_conservation(S, "paranoid", "C12");
   if ((S.op_index & 255) == 255) check_conservation(S, "periodic", walkprof ? "C12" : "C12,C05,C10");
   if ((S.op_index & 511) == 511) { vf_cur_what = "verify_all"; S.sm.verify_all("periodic verification"); }
